@@ -214,6 +214,9 @@ def gen_quads_trace(recipe, rng):
 
 
 def gen_trace(recipe):
+  if recipe.get('suite'):
+    import suite
+    return suite.regen(recipe, ('CallPredictPairs',))
   rng = np.random.default_rng(recipe['seed'])
   if recipe['est'] == 'SCML':
     return gen_triplets_trace(recipe, rng)
@@ -269,6 +272,20 @@ def run(ctx):
                    via_index=bool((i // 2) % 2), src='random'))
   pairs = core.generate(MOD, rs)
   core.judge(ctx, *SPEC, pairs, signature_of)
+  # predict calls made by the repository's own pairs-classifier tests, validated against the same rule
+  import suite
+  evs, summary = core.record_suite_calls(os.path.join(ctx.work, 'suite'), files=['test/test_pairs_classifiers.py'])
+  spairs = suite.traces_from(evs, ('CallPredictPairs',), 120 if ctx.quick else 0, np.random.default_rng(ctx.seed))
+  if len(spairs) < 20:
+    raise core.MachineryError('only %d predict traces recorded from test_pairs_classifiers.py (%s)' % (len(spairs), summary))
+  core.judge(ctx, *SPEC, spairs, signature_of, tag='suite')
+  for recipe, tr in spairs:
+    ctx.note_case(('suite', recipe['test']))
+  ctx.extra['suite_traces'] = {'pytest_summary': summary, 'calls_recorded': len(evs), 'tests_validated': len(spairs),
+                               'events_validated': sum(len(t['events']) for _, t in spairs)}
+  def flip_suite(t):
+    t['events'][0]['out'] = [-v for v in t['events'][0]['out']]
+  core.selftest_binding(ctx, *SPEC, spairs[0][1], flip_suite, 'C04.suite_call_predict', 'suite_predictions_flipped')
   ties = 0
   for recipe, tr in pairs:
     has_tie = False
